@@ -432,6 +432,12 @@ pub fn stable(lang: &Lang, q: &str, want: &[&[char]]) -> bool {
 // other properties' workloads).
 
 pub fn check_tok(lang: &str, input: &str, t: &TextOwn, is_query: bool) -> Option<(&'static str, String)> {
+    check_tok_composed(&compose(lang, &cv(input)), t, is_query)
+}
+
+/// The same clauses for any language whose composed input the caller knows (`want` = the input with the language's
+/// compositions applied).
+pub fn check_tok_composed(want: &[char], t: &TextOwn, is_query: bool) -> Option<(&'static str, String)> {
     let n = t.chars.len();
     if t.source.len() != n || t.classes.len() != n {
         return Some(("lengths", format!("source={} chars={} classes={}", t.source.len(), n, t.classes.len())));
@@ -482,9 +488,8 @@ pub fn check_tok(lang: &str, input: &str, t: &TextOwn, is_query: bool) -> Option
     // source without padding == composed input
     let unpadded: Vec<char> =
         (0..n).filter(|&i| !(t.source[i] == '\0' && t.chars[i] != '\0')).map(|i| t.source[i]).collect();
-    let want = compose(lang, &cv(input));
-    if unpadded != want {
-        return Some(("source", format!("source without padding {:?} != composed input {:?}", s(&unpadded), s(&want))));
+    if &unpadded[..] != want {
+        return Some(("source", format!("source without padding {:?} != composed input {:?}", s(&unpadded), s(want))));
     }
     None
 }
